@@ -303,7 +303,7 @@ def float_to_qs(x, max_den=2 * 10 ** 9, rel=1e-9):
     fx = Fraction(x)
     scale = 0
     y = fx
-    while abs(y) >= 10 ** 9 and scale < 24:
+    while abs(y) >= 10 ** 9 and scale < 63:
         y /= 1000
         scale += 3
     cands = []
